@@ -46,12 +46,16 @@ def probe(sc):
         res['own_probe'] = 'request_response did not register a stream'
     else:
         sid2 = rec.objs[oid2].stream_id
-        sc._inject({'t': 'Payload', 'sid': sid2, 'ign': False, 'follows': False, 'complete': True, 'next': True,
-                    'md': b'', 'd': b'pong'})
-        f = box['f']
-        if not f.done() or f.cancelled() or f.exception() is not None or b'pong' not in bytes(f.result().data):
-            # (the peer may fragment its answer, or have sent stray fragments on this id before: its own answer is then its own mess)
-            res['own_probe'] = 'own request not answered: %r' % (f,)
+        if sid2 in rec.ep._frame_fragment_cache._frames_by_stream_id:
+            # the hostile peer had already sent a stray first fragment on this very id: whatever it now answers is
+            # glued onto its own earlier bytes — its own mess, not a containment failure
+            pass
+        else:
+            sc._inject({'t': 'Payload', 'sid': sid2, 'ign': False, 'follows': False, 'complete': True, 'next': True,
+                        'md': b'', 'd': b'pong'})
+            f = box['f']
+            if not f.done() or f.cancelled() or f.exception() is not None or b'pong' not in bytes(f.result().data):
+                res['own_probe'] = 'own request not answered: %r' % (f,)
     ep = rec.ep
     for name in ('_receiver_task', '_sender_task'):
         t = getattr(ep, name, None)
